@@ -254,6 +254,18 @@ fn boundary_cases(tier: Tier) -> Vec<Case> {
             }
         }
     }
+    // arithmetic on literals only (what a parser might fold), also inside a slot
+    {
+        let lits = ["0", "1", "-1", "2", "9223372036854775807", "-9223372036854775807", "(-9223372036854775807 - 1)", "4611686018427387904"];
+        for a in lits {
+            for b in lits {
+                for op in ["+", "-", "*", "/", "%"] {
+                    v.push(Case::new(format!("print(\"pre\")\nprint({} {} {})\n", a, op, b), 3, format!("literals {} {} {}", a, op, b)));
+                    v.push(Case::new(format!("print(\"pre\")\nx := [{} {} {}, 0]\ns := $\"${{\"ab\"[({} {} {}) * 0]}}\"\nprint(s)\n", a, op, b, a, op, b), 3, format!("literals {} {} {} in a list and a slot", a, op, b)));
+                }
+            }
+        }
+    }
     // ranges with far-apart or descending bounds, built and iterated directly
     let edge: Vec<i64> = vec![i64::MIN, i64::MIN + 1, -1, 0, 1, i64::MAX - 1, i64::MAX];
     for &a in &edge {
